@@ -241,7 +241,7 @@ def run_pure_case(chk: Check, case: dict):
     return problems, diffs, tags
 
 
-def suite_pure(chk: Check, n: int) -> None:
+def suite_pure(chk: Check, n: int) -> set:
     rng = chk.rng
     cases = []
     for f in sorted((ROOT / "corpus" / "C04").glob("pure_*.json")):
@@ -254,14 +254,15 @@ def suite_pure(chk: Check, n: int) -> None:
             r = rng.random()
             entries.append([name, None if r < 0.08 else old, None if 0.08 <= r < 0.16 else new])
         cases.append({"suite": "pure", "mode": rng.choice(["full", "full", "shrink"]), "entries": entries})
-    nd = 0
+    nd, all_hits = 0, set()
     for case in cases:
         problems, diffs, tags = run_pure_case(chk, case)
         chk.case(["pure", case], nontrivial=any(t in ("pure-resized", "pure-rank-mismatch") for t in tags),
                  sample=case, tags=[t for t in tags if not t.startswith("hit:")] + ["pure-" + case["mode"]])
-        report(chk, case, problems, diffs, tags, shrink=None)
+        all_hits |= report(chk, case, problems, diffs, {t[4:] for t in tags if t.startswith("hit:")}, None)
         nd += bool(diffs)
     chk.suite("preserve-pure", len(cases), nd)
+    return all_hits
 
 
 # ----------------------------------------------------------------------------- real modules
@@ -808,16 +809,22 @@ def gen_case(rng: random.Random, tier: str, kind: str | None = None) -> dict:
 
 
 # ----------------------------------------------------------------------------- verdicts
-def report(chk: Check, case: dict, problems, diffs, tags_or_hits, shrink):
-    """route what a case found: known-finding probes, violations (shrunk), correspondence-only diffs"""
-    hits = {t[4:] for t in tags_or_hits if isinstance(t, str) and t.startswith("hit:")} if not isinstance(tags_or_hits, set) else tags_or_hits
+def report(chk: Check, case: dict, problems, diffs, hits: set, shrink) -> set:
+    """route what a case found: counters for analysed defects, violations (shrunk and re-run),
+    correspondence-only disagreements"""
     for fid in sorted(hits):
         chk.dist["hit:" + fid] += 1
     if problems:
-        small = shrink(lambda r: bool(r["problems"])) if shrink else case
+        small = case
+        if shrink:
+            small = shrink(lambda r: bool(r["problems"]))
+            problems = run_chain(chk, small)["problems"] or problems
         chk.violation(problems[0], {**small, "oracle_problems": problems[:5], "theorems": chk.gate["theorems"]})
     elif diffs:
-        small = shrink(lambda r: bool(r["diffs"]) and not r["problems"]) if shrink else case
+        small = case
+        if shrink:
+            small = shrink(lambda r: bool(r["diffs"]) and not r["problems"])
+            diffs = run_chain(chk, small)["diffs"] or diffs
         chk.violation("implementation and Preserve model disagree: " + diffs[0] +
                       "; the property oracle holds on this case and its shrinks",
                       {**small, "diffs": diffs[:5], "correspondence": "harness/c04.py vs Model/Preserve.lean",
@@ -1052,8 +1059,8 @@ def run(chk: Check) -> None:
         if found:
             emit_finding(chk, found[0], found[1], {"suite": "probe", "probe": name})
     suite_index(chk, 40 if quick else 400)
-    suite_pure(chk, 60 if quick else 1200)
-    hits = suite_mutation(chk, 45 if quick else 700)
+    hits = suite_pure(chk, 60 if quick else 1200)
+    hits |= suite_mutation(chk, 45 if quick else 700)
     combos = [("DQN", "vector", 1), ("DQN", "image", 2), ("DDPG", "vector", 3)]
     if not quick:
         combos += [("RainbowDQN", "vector", 4), ("TD3", "image", 5), ("PPO", "vector", 6), ("PPO", "dict", 7),
